@@ -198,6 +198,19 @@ Theorem C12_unknown_service_noop : forall cfg h o,
 Proof. exact unknown_service_noop. Qed.
 Print Assumptions C12_unknown_service_noop.
 
+(* the node's service list may contain entries the services section does not define (a
+   leftover, a typo): they are invisible.  The hosted services - every theorem above quantifies
+   over them: enumerated by web_nodes, asked for support, told to retire, waited for - are the
+   defined entries in list order, an undefined entry at any position (first, between two
+   services, last, repeated) changes nothing, and every history runs exactly as on the list
+   without them. *)
+Theorem C12_undefined_entries_invisible : forall nl : nodelist,
+  names (defined nl) = map fst (filter is_defined nl) /\
+  (forall a n b, defined (a ++ (n, None) :: b) = defined (a ++ b)) /\
+  forall h, run (defined nl) h = run (defined (filter is_defined nl)) h.
+Proof. exact undefined_entries_invisible. Qed.
+Print Assumptions C12_undefined_entries_invisible.
+
 (* the executable monitor (Spec.check at every position) accepts every trace of the model:
    a monitor failure on an implementation trace is a behaviour the proven model excludes *)
 Theorem C12_monitor_accepts_model : forall cfg h, holds cfg h (run cfg h) = true.
